@@ -662,4 +662,50 @@ theorem padKept_of_noAppend (os : List AnyObj) (h : NoAppend os) : PadKept os :=
       | _ => exact ih h
     | _ => exact ih h
 
+/-! ### the excluded region is real (refutation witness), and the proved part is not vacuous -/
+
+/-- witness: `Dot1Q(5, append_pad = true) / PPPoE session / RawPDU(01 02 03)`.  The first serialization is padded to 50
+    bytes; the PPPoE payload length cuts the padding off on re-parsing and the re-parsed Dot1Q does not pad
+    (`append_padding_` is not on the wire), so the second serialization has 13 bytes. -/
+def padLostWitness : List AnyObj :=
+  [.l2 (.dot1q (Dot1Q.create 5 true)), .l2 (.pppoe ⟨1, 1, 0, 0x1234, 0, [], 0⟩), .raw [1, 2, 3]]
+def padLostBytes : Bytes := [0x00,0x05,0x88,0x64, 0x11,0,0x12,0x34,0,3, 1,2,3] ++ List.replicate 37 0
+def padLostRe : List AnyObj :=
+  [.l2 (.dot1q ⟨0, 0, 5, 0x8864, false⟩), .l2 (.pppoe ⟨1, 1, 0, 0x1234, 3, [], 0⟩), .raw [1, 2, 3]]
+
+theorem padLostWitness_stackable : Stackable padLostWitness :=
+  ⟨dot1q_create_wf 5 true, trivial,
+   ⟨by decide, by decide, by decide, by decide, by decide, rfl, fun t ht => nomatch ht⟩, ⟨rfl, rfl, by decide⟩, rfl⟩
+
+theorem l2_chain_reserialize_fixpoint_fails : ¬ l2_chain_reserialize_fixpoint := by
+  intro h
+  have h1 := h (.l2 (.dot1q (Dot1Q.create 5 true))) [.l2 (.pppoe ⟨1, 1, 0, 0x1234, 0, [], 0⟩), .raw [1, 2, 3]]
+    padLostBytes padLostRe padLostWitness_stackable (by decide) rfl rfl
+  have h2 : serializeObjs padLostRe = .ok [0x00,0x05,0x88,0x64, 0x11,0,0x12,0x34,0,3, 1,2,3] := rfl
+  rw [h2] at h1
+  injection h1 with h1
+  exact absurd (congrArg List.length h1) (by decide)
+
+/-- … and it is exactly what `PadKept` excludes -/
+example : ¬ PadKept padLostWitness := fun h => absurd (h.1 rfl) (by decide)
+
+section Examples
+
+/-- the stacks of `ThChainReparse.lean`: the second serialization equals the first (padding absorbed by the payload:
+    QinQ with a padding Dot1Q, MPLS below EthernetII; padding cut off and re-created: PPPoE below EthernetII) -/
+example : serializeObjs exQinQ_re = .ok exQinQ_bytes :=
+  l2_chain_reserialize_fixpoint_partial _ _ _ _ exQinQ_stackable ⟨fun _ => rfl, fun _ => rfl, trivial⟩ (by decide) rfl rfl
+example : serializeObjs exQinQ_re = .ok exQinQ_bytes := rfl
+example : serializeObjs exMpls_re = .ok exMpls_bytes :=
+  l2_chain_reserialize_fixpoint_partial _ _ _ _ exMpls_stackable trivial (by decide) rfl rfl
+example : serializeObjs exPppoe_re = .ok exPppoe_bytes :=
+  l2_chain_reserialize_fixpoint_partial _ _ _ _ exPppoe_stackable trivial (by decide) rfl rfl
+example : serializeObjs exDot3_re = .ok [1,2,3,4,5,6, 7,8,9,10,11,12, 0,6, 0xaa,0xaa,3, 1,2,3] :=
+  l2_chain_reserialize_fixpoint_partial _ _ _ _ exDot3_stackable trivial (by decide) rfl rfl
+
+/-- the closed form of `PDU::serialize` on a concrete stack -/
+example : wire [] exPppoe = exPppoe_bytes := rfl
+
+end Examples
+
 end Tins.Wire.L2
